@@ -346,6 +346,9 @@ class ModelBackend:
         for u in Updates:
             self.apply(u)
         self.token_n += 1
+        call["applied"] = True
+        if self.on_call:
+            self.on_call("ApiApplied", call)
         if fault:
             call["ok"], call["err"] = False, fault + "-after-apply"
             if self.on_call:
